@@ -267,6 +267,22 @@ impl Resolution {
     }
 }
 
+/// is the first component of `req` an alias that both the configuration and the nearest `.luaurc` define, with
+/// different targets?
+pub fn alias_defined_twice(cfg: &ModeCfg, project: &str, fs: &dyn FsView, requirer: &str, req: &str) -> bool {
+    let cs = comps(req);
+    let Some(first) = cs.first().copied() else { return false };
+    if !cfg.rc_enabled() {
+        return false;
+    }
+    let Some(v) = cfg.sources.get(first) else { return false };
+    let Some(name) = first.strip_prefix('@') else { return false };
+    match nearest_luaurc(fs, requirer) {
+        Ok(Some((_d, aliases))) => aliases.get(name).map(|t| *t != norm(&join(project, v))).unwrap_or(false),
+        _ => false,
+    }
+}
+
 /// aliases of the nearest `.luaurc` above `requirer`: name (without `@`) -> normalised target
 pub fn nearest_luaurc(fs: &dyn FsView, requirer: &str) -> Result<Option<(String, BTreeMap<String, String>)>, String> {
     let mut dir = parent(requirer);
@@ -368,6 +384,16 @@ pub fn resolve(cfg: &ModeCfg, project: &str, fs: &dyn FsView, requirer: &str, re
                     return Resolution::undecided("luau mode: path that is neither relative nor an alias");
                 }
                 return Resolution { accept: vec![Res::Error], ..Default::default() };
+            }
+            if targets.len() > 1 {
+                // documented order ("Before looking at the `aliases` / `sources` value, darklua will attempt to find the
+                // nearest `.luaurc` ... If it finds one, it will load the aliases"): the `.luaurc` alias is the one used
+                if let Ok(Some((_dir, aliases))) = nearest_luaurc(fs, requirer) {
+                    if let Some(t) = first.strip_prefix('@').and_then(|n| aliases.get(n)) {
+                        targets = [t.clone()].into_iter().collect();
+                        head = Head::RcAlias(first.trim_start_matches('@').to_string());
+                    }
+                }
             }
             if targets.len() > 1 {
                 head = Head::Mixed;
